@@ -81,6 +81,39 @@ func init() {
 		}
 		return core.OkHex(out)
 	})
+	// session [kv×4] cols – cols = kind:pattern:k:side:stored,… : ONE masking.Processor, ONE DecryptHandler, ONE
+	// EnvelopeDetector + OldContainerDetectorWrapper (the objects proxyFactory.New creates once per client session)
+	// over several columns, each read with the setting of its own column in the context
+	core.Register("C11.session", func(a []string) string {
+		kv := env.ParseKV(a[0:4])
+		reg := crypto.NewRegistryHandler(kv)
+		proc, err := masking.NewProcessor(reg)
+		if err != nil {
+			panic("harness: " + err.Error())
+		}
+		det := crypto.NewEnvelopeDetector()
+		w := crypto.NewOldContainerDetectorWrapper(det)
+		det.AddCallback(crypto.NewDecryptHandler(kv, proc))
+		var outs []string
+		for _, col := range strings.Split(a[4], ",") {
+			f := strings.Split(col, ":")
+			if len(f) != 5 {
+				panic("harness: bad session column " + col)
+			}
+			s, err := setting(f[0], f[1], f[2], f[3])
+			if err != nil {
+				return "badcfg"
+			}
+			ctx := encryptor.NewContextWithEncryptionSetting(env.Ctx([]byte("client")), s)
+			_, out, err := w.OnColumn(ctx, core.UnHex(f[4]))
+			if err != nil {
+				outs = append(outs, "fatal")
+				continue
+			}
+			outs = append(outs, core.Hex(out))
+		}
+		return "ok " + strings.Join(outs, ",")
+	})
 }
 
 // boundaryTails are the ends of clear windows that meet the envelope (see the directed cases of the masking stream).
@@ -171,8 +204,62 @@ func run(r *core.Run) {
 			}
 			l, class = len(v), "boundary-tag-material"
 		}
+		// directed: a HIDDEN part that merely starts with the 12 header bytes of a serialized container
+		// (`%%%` + 8 length bytes + envelope id) followed by bytes that are no envelope. It is not a protected value
+		// (RegistryHandler.MatchDataSignature deserializes the payload and asks the envelope handler), so it must be
+		// encrypted like any other hidden part. Declared lengths: header only, exactly the cell, one more than the
+		// cell, far beyond the cell, below the header size, 2^63, random.
+		var marker []byte // high-entropy bytes of the hidden part for the byte-scan oracles
+		if i%10 == 2 {
+			junk := rd.Bytes(8 + rd.Intn(24))
+			win := rd.Bytes(rd.Intn(7))
+			for j := range win {
+				win[j] = 'a' + win[j]%26
+			}
+			hl := uint64(12 + len(junk))
+			decl := []uint64{12, hl, 13, hl + 1, hl + 100000, 5, 1 << 63, rd.U64()}[(i/10)%8]
+			hdr := []byte("%%%")
+			for j := 0; j < 8; j++ {
+				hdr = append(hdr, byte(decl>>(8*uint(j))))
+			}
+			hdr = append(hdr, byte(0xF0+rd.Intn(2)))
+			hid := append(hdr, junk...)
+			k = len(win)
+			if side == "left" {
+				v = append(append([]byte{}, win...), hid...)
+			} else {
+				v = append(append([]byte{}, hid...), win...)
+			}
+			l, class, marker = len(v), "lookalike-header", junk
+			r.Tag(fmt.Sprintf("lookalike-header:declared-%d", (i/10)%8))
+		}
+		// directed: clear windows with `%` material anywhere (runs of 1–4 `%`, sometimes a whole false header):
+		// judged whenever the model's window condition holds
+		if i%10 == 6 {
+			body := rd.Bytes(16 + rd.Intn(24))
+			for j := range body {
+				body[j] = 'a' + body[j]%26
+			}
+			for n := 1 + rd.Intn(3); n > 0; n-- {
+				at := rd.Intn(len(body) - 4)
+				for q := 1 + rd.Intn(4); q > 0; q-- {
+					body[at+q-1] = '%'
+				}
+			}
+			if rd.Chance(30) && len(body) >= 20 {
+				at := rd.Intn(len(body) - 13)
+				copy(body[at:], "%%%")
+				body[at+3] = byte(12 + rd.Intn(8))
+				for q := 4; q < 11; q++ {
+					body[at+q] = 0
+				}
+				body[at+11] = byte(0xF0 + rd.Intn(2))
+			}
+			v, l, class = body, len(body), "percent-window"
+			k = 1 + rd.Intn(l-1)
+		}
 		pat := core.Pick(rd, patterns)
-		if rd.Chance(10) && k > 0 && k <= l {
+		if class != "lookalike-header" && rd.Chance(10) && k > 0 && k <= l {
 			for j := 0; j < k; j++ { // pattern equal to the window bytes (made printable)
 				v[j] = 'a' + v[j]%26
 			}
@@ -199,9 +286,13 @@ func run(r *core.Run) {
 		// a hidden part that itself LOOKS like a protected value is passed through unwrapped by design (C01:
 		// "input that already is a protected value is passed through unchanged"); the masking theorems carry the
 		// hypothesis that it does not – such cases are compared with the model but not judged
+		// The judge of "looks like a protected value" is the MODEL's predicate (the hypothesis `¬ matchKind`,
+		// `¬ registryMatch` of the theorems: full deserialization + the envelope handler's own test) – never the
+		// implementation's answer, which is what is being checked; the implementation's answer is compared with it.
 		lookalike := false
 		for _, q := range []string{"C01.handler.matchkind struct ", "C01.handler.matchkind block ", "C01.handler.match "} {
-			if r.Do(q+core.Hex(hidden)) == "true" {
+			r.Do(q + core.Hex(hidden))
+			if r.ModelOnly(q+core.Hex(hidden)) == "true" {
 				lookalike = true
 			}
 		}
@@ -211,8 +302,31 @@ func run(r *core.Run) {
 			continue
 		}
 		// stored form: the window in clear on its side, never the hidden part
-		if class == "random" && len(hidden) >= 6 && !bytes.Contains(window, hidden) { // byte-scan oracles need a high-entropy marker
-			r.Check(!bytes.Contains(stored, hidden), "mask-stored-clear", fmt.Sprintf("the hidden part of a masked value is stored in clear (cfg %s, value %s)", cfg, core.Hex(v)))
+		if class == "random" {
+			marker = hidden
+		}
+		if len(marker) >= 6 && !bytes.Contains(window, marker) && !bytes.Contains(pat, marker) { // byte-scan oracles need a high-entropy marker
+			r.Check(!bytes.Contains(stored, marker), "mask-stored-clear", fmt.Sprintf("the hidden part of a masked value is stored in clear (cfg %s, value %s, class %s)", cfg, core.Hex(v), class))
+		}
+		// which clear windows are judged: exactly those satisfying the hypothesis of the read theorems
+		// (`maskWindowOk`: the scan passes over every position of the window when read together with what
+		// follows it in the stored value) – evaluated by the model on the stored bytes – and, for the legacy
+		// scans of bare envelopes, no struct/block tag material
+		protPart := stored
+		if k < l {
+			if side == "left" {
+				protPart = stored[k:]
+			} else {
+				protPart = stored[:len(stored)-k]
+			}
+		}
+		winok := r.ModelOnly(fmt.Sprintf("C11.windowok %s %s %s", side, core.Hex(window), core.Hex(protPart))) == "true"
+		clean := winok && !bytes.Contains(window, []byte("\"\"\"\""))
+		if clean && bytes.Contains(window, []byte("%")) {
+			r.Tag("window:judged-with-percent")
+		}
+		if !clean {
+			r.Tag("window:not-judged")
 		}
 		// owner (possibly after a rotation: value written under an older key is still readable)
 		rot := *owner
@@ -222,11 +336,13 @@ func run(r *core.Run) {
 		rot.Pub, rot.Sym = nk.Pub, nk.Sym
 		for ri, reader := range []*env.KV{owner, &rot} {
 			got, ok := okBytes(r.Do(fmt.Sprintf("C11.read %s %s %s", cfg, reader.Tokens(), core.Hex(stored))))
+			if !winok && class == "percent-window" {
+				continue // a false container header inside the window: outside the theorems (in-band signalling), compared only
+			}
 			r.Check(ok && bytes.Equal(got, v), "mask-owner", fmt.Sprintf("owner (reader %d) did not get the complete original value back (k=%d, side=%s, len=%d)", ri, k, side, l))
 		}
 		// readers that cannot decrypt: another client, a client without any keys
 		other := env.NewKV(rd, 1, 1)
-		clean := !bytes.Contains(window, []byte("%%%")) && !bytes.Contains(window, []byte("\"\"\"\""))
 		for ri, reader := range []*env.KV{other, none} {
 			got, ok := okBytes(r.Do(fmt.Sprintf("C11.read %s %s %s", cfg, reader.Tokens(), core.Hex(stored))))
 			if !r.Check(ok, "mask-read-failed", "masked read failed for a reader without keys") {
@@ -242,8 +358,8 @@ func run(r *core.Run) {
 				r.Check(bytes.Equal(got, want), "mask-other", fmt.Sprintf("reader %d without the key did not get exactly window+pattern (k=%d, side=%s, len=%d, got %d bytes)", ri, k, side, l, len(got)))
 			}
 			// never a hidden plaintext byte run, never ciphertext
-			if class == "random" && len(hidden) >= 6 && !bytes.Contains(want, hidden) {
-				r.Check(!bytes.Contains(got, hidden), "mask-leak-plain", "a reader without the key received the hidden plaintext")
+			if len(marker) >= 6 && !bytes.Contains(want, marker) {
+				r.Check(!bytes.Contains(got, marker), "mask-leak-plain", fmt.Sprintf("a reader without the key received the hidden plaintext (class %s)", class))
 			}
 			prot := stored
 			if k < l {
@@ -255,9 +371,112 @@ func run(r *core.Run) {
 			}
 			for off := 12; off+8 <= len(prot); off += 8 {
 				if bytes.Contains(got, prot[off:off+8]) && !bytes.Contains(want, prot[off:off+8]) {
+					if !winok {
+						// a position INSIDE the clear window decodes as a container start (false `%%%`+length+id header):
+						// the scan replaces it by the pattern, advances by ITS declared length and so steps over the
+						// real container's header – the rest of the container is shown raw. In-band signalling,
+						// inherent in the stored format (DESIGN §7 C11 "Deviation", hypothesis `maskWindowOk` of the
+						// read theorems); recorded, compared with the model, not judged
+						r.Tag("window:false-header-shows-container-bytes")
+						break
+					}
 					r.Fail("mask-leak-cipher", "a reader without the key received ciphertext bytes")
 					break
 				}
+			}
+		}
+	}
+	sessions(r, patterns)
+}
+
+// sessions: several masked columns with DIFFERENT patterns / sides / window lengths / envelope kinds read through
+// ONE set of session objects (masking.Processor, DecryptHandler, detector, wrapper), by a client without the keys,
+// by a client with other keys and by the owner. What column i shows must depend on column i alone.
+func sessions(r *core.Run, patterns [][]byte) {
+	rd := r.Rand
+	none := &env.KV{NoPub: true, NoPrivs: true, NoSym: true, NoSyms: true}
+	for s := 0; s < r.N(24, 500); s++ {
+		owner := env.NewKV(rd, 1+rd.Intn(2), 1+rd.Intn(2))
+		n := 2 + rd.Intn(4)
+		type col struct {
+			cfg, kind, side string
+			pat, v, window  []byte
+			stored          []byte
+		}
+		var cols []col
+		perm := rd.Intn(len(patterns))
+		for j := 0; j < n; j++ {
+			c := col{kind: []string{"struct", "block"}[rd.Intn(2)], side: []string{"left", "right"}[rd.Intn(2)]}
+			c.pat = patterns[(perm+j)%len(patterns)] // neighbouring columns always differ in their pattern
+			if j == n-1 && rd.Chance(30) {
+				c.pat = cols[0].pat // … and sometimes a later column repeats the first one's
+			}
+			l := 8 + rd.Intn(30)
+			c.v = rd.Bytes(l)
+			for x := range c.v { // clear windows without tag material
+				if c.v[x] == '%' || c.v[x] == '"' {
+					c.v[x] = 'w'
+				}
+			}
+			k := rd.Intn(l + 2)
+			if rd.Chance(70) {
+				k = rd.Intn(l - 6)
+			}
+			c.cfg = fmt.Sprintf("%s %s %d %s", c.kind, core.Hex(c.pat), k, c.side)
+			if k >= l {
+				c.window = nil
+			} else if c.side == "left" {
+				c.window = c.v[:k]
+			} else {
+				c.window = c.v[l-k:]
+			}
+			cols = append(cols, c)
+		}
+		r.Begin(fmt.Sprintf("session-%d-%x", n, cols[0].v[:6]), true, "stream:session", fmt.Sprintf("session:columns-%d", n))
+		okAll := true
+		for j := range cols {
+			st, ok := okBytes(r.Do(fmt.Sprintf("C11.write %s %s %s %s", cols[j].cfg, owner.Tokens(), core.Hex(cols[j].v), core.Hex(env.Rnd(rd)))))
+			if !r.Check(ok, "mask-write-failed", "masked write failed in a session") {
+				okAll = false
+				break
+			}
+			cols[j].stored = st
+		}
+		if !okAll {
+			continue
+		}
+		other := env.NewKV(rd, 1, 1)
+		for ri, reader := range []*env.KV{none, other, owner} {
+			var toks []string
+			for _, c := range cols {
+				toks = append(toks, strings.Join(append(strings.Fields(c.cfg), core.Hex(c.stored)), ":"))
+			}
+			out := r.Do(fmt.Sprintf("C11.session %s %s", reader.Tokens(), strings.Join(toks, ",")))
+			if !r.Check(strings.HasPrefix(out, "ok "), "mask-read-failed", "reading the masked columns of a session failed: "+out) {
+				continue
+			}
+			got := strings.Split(out[3:], ",")
+			if !r.Check(len(got) == len(cols), "mask-read-failed", "a session returned a different number of columns") {
+				continue
+			}
+			for j, c := range cols {
+				var want []byte
+				switch {
+				case reader == owner:
+					want = c.v
+				case c.side == "left":
+					want = append(append([]byte{}, c.window...), c.pat...)
+				default:
+					want = append(append([]byte{}, c.pat...), c.window...)
+				}
+				if reader == owner {
+					r.Check(got[j] == core.Hex(want), "mask-session-owner", fmt.Sprintf("column %d of %d of a session: the owner did not get the original value back", j+1, len(cols)))
+				} else {
+					r.Check(got[j] == core.Hex(want), "mask-session-other", fmt.Sprintf("column %d of %d of a session (pattern %q, side %s): reader %d without the key did not get exactly this column's window joined with THIS column's pattern: got %q", j+1, len(cols), c.pat, c.side, ri, core.UnHex(got[j])))
+				}
+				// the same column alone through fresh objects: the session must not make a difference
+				alone := r.Impl(fmt.Sprintf("C11.read %s %s %s", c.cfg, reader.Tokens(), core.Hex(c.stored)))
+				r.Check(alone == "ok "+got[j], "mask-session-depends-on-other-columns", fmt.Sprintf("column %d of %d of a session is shown differently than the same column read alone", j+1, len(cols)))
 			}
 		}
 	}
